@@ -10,7 +10,9 @@ import sys
 import time
 
 VERIF = os.path.dirname(os.path.dirname(os.path.abspath(__file__)))
-LEAN_DIR = os.path.join(VERIF, "lean")
+# VERIF_LEAN_DIR: a private copy of the Lake project (used by the self-tests tools/run_seeds.py and tools/run_benign.py, which
+# point the translators at scratch worktrees and must not overwrite lean/Tulz/Generated of the registered checks)
+LEAN_DIR = os.environ.get("VERIF_LEAN_DIR") or os.path.join(VERIF, "lean")
 BUILD = os.path.join(VERIF, "build")
 EVID = os.environ.get("VERIF_EVIDENCE_DIR", os.path.join(VERIF, "evidence"))
 REPLAYS = os.path.join(EVID, "replays")
@@ -71,7 +73,7 @@ def sh(cmd, cwd=None, timeout=None, env=None, input=None):
 class LakeLock:
     def __enter__(self):
         os.makedirs(BUILD, exist_ok=True)
-        self.f = open(os.path.join(BUILD, "lake.lock"), "w")
+        self.f = open(os.path.join(BUILD, "lake.lock" if LEAN_DIR == os.path.join(VERIF, "lean") else "lake-selftest.lock"), "w")
         fcntl.flock(self.f, fcntl.LOCK_EX)
         return self
 
